@@ -102,3 +102,15 @@ Theorem C05_centroids_are_majority : forall fexp nf (files : list (list fpv)) (c
        Forall2 (fun cen ids => ids <> [] ->
                   cen = map (fun k => zlen ids <=? 2 * k) (colsum nf (map G ids))) cs cl).
 Proof. exact multiround_centroids_majority. Qed.
+
+(* ---- source ties (Gen/GMr.v is regenerated from bblean/multiround.py on every run) ---- *)
+From BB Require Import Gen.NumpySem Gen.GMr Proofs.GenTieMr.
+(* the two files a task writes per dtype group are named as in the model ... *)
+Theorem C05_source_tie_names : forall od label r w,
+  GMr.save_names od label r (dtype_name w) = [bufs_name r label w; idxs_name r label w].
+Proof. exact tie_save_names. Qed.
+(* ... and the next round collects them with the model's two globs (then zips the sorted lists) *)
+Theorem C05_source_tie_globs : forall r n, 0 <= r ->
+  is_bufs_of r n = glob_match (GMr.prev_bufs_glob (r + 1)) n /\
+  is_idxs_of r n = glob_match (GMr.prev_idxs_glob (r + 1)) n.
+Proof. intros r n H. split; [exact (tie_prev_bufs r n H) | exact (tie_prev_idxs r n H)]. Qed.
